@@ -384,9 +384,10 @@ func (m *Manager) ApplyBatch(entries []*wal.Entry) error {
 			return err // Return ErrWALRotating for retry handling
 		}
 
-		// Apply each entry to the MemTable
-		for i, entry := range entries {
-			seqNum := startSeqNum + uint64(i)
+		// Apply each entry to the MemTable. All entries of a batch share the
+		// batch's sequence number, exactly as they are recorded in the WAL
+		for _, entry := range entries {
+			seqNum := startSeqNum
 
 			switch entry.Type {
 			case wal.OpTypePut:
